@@ -20,6 +20,7 @@ RULE = ("seeded generator (tpmon.gen_geo) of domain expressions: primitives (int
         "{domain,sampler} x {interior,boundary} x {random,grid,lhs,gauss,adaptive} x {n,density} x filter x static; "
         "non-trivial = at least one returned row was judged by the twin; distinct = (expression shape, call kind, "
         "n class, k class, parameter dependence)")
+RULE += '; a sixth of the cases at length scales 0.01 / 0.05 / 30 / 300; polygons with up to three holes; 3-D rotations; adaptive samplers are called a second time with the parameter rows in reverse order (kept rows stay paired with the row they were sampled for)'
 REQUIRED_REACH = ["_random_points_if_n_eq_1", "_random_points_inside", "_inside_grid_with_n",
                   "_random_boundary_points_if_n_eq_1", "_random_points_boundary", "_boundary_grid_with_n",
                   "UnionDomain._sample_random_with_n", "UnionDomain._sample_random_with_d",
